@@ -100,6 +100,8 @@ type Exec struct {
 	cfg    *Config
 	ctx    *sym.Ctx
 	solver *sym.Solver
+	solver2 *sym.Solver
+	freshRetries int
 
 	globals      map[*ssa.Global]*Value
 	finfo        map[*ssa.Function]*funcInfo
@@ -126,6 +128,7 @@ type Exec struct {
 	assertsHit    map[string]int
 	reached       map[string]int
 	assumes       int
+	pcTerms       []*sym.Term
 	modelOnly     bool
 	model         map[string]uint64
 	evalr         *sym.Evaluator
@@ -157,7 +160,11 @@ func NewExec(prog *ssa.Program, cfg *Config) (*Exec, error) {
 		initDone: map[*ssa.Package]bool{}, tables: map[string]*sym.Table{},
 		funcs: map[string]string{}, intrins: map[string]int{}, harnessRT: map[*ssa.Function]bool{}, fnames: map[*ssa.Function]string{}, consts: map[*ssa.Const]Value{},
 		wg: map[*Value]int64{}}
-	s, err := sym.NewSolver(cfg.Solver, ex.ctx, cfg.QueryTimeout)
+	mainTO := cfg.QueryTimeout
+	if mainTO > 8000 {
+		mainTO = 8000 // the incremental session gives up early; checkFresh retries with the full timeout
+	}
+	s, err := sym.NewSolver(cfg.Solver, ex.ctx, mainTO)
 	if err != nil {
 		return nil, err
 	}
@@ -166,7 +173,12 @@ func NewExec(prog *ssa.Program, cfg *Config) (*Exec, error) {
 	return ex, nil
 }
 
-func (ex *Exec) Close() { ex.solver.Close() }
+func (ex *Exec) Close() {
+	ex.solver.Close()
+	if ex.solver2 != nil {
+		ex.solver2.Close()
+	}
+}
 
 func (ex *Exec) undoFn(f func()) {
 	if ex.inInit {
@@ -310,7 +322,52 @@ func (ex *Exec) seedSkipped(pkg *ssa.Package) {
 
 // ---- decisions ------------------------------------------------------------------
 
+// checkFresh re-decides a query the incremental session answered `unknown` in a
+// second solver process with only the path condition asserted (the incremental
+// core sometimes stalls on queries a fresh context decides in a second).
+func (ex *Exec) checkFresh(q *sym.Term) sym.Result {
+	if ex.solver2 == nil {
+		s2, err := sym.NewSolver(ex.cfg.Solver, ex.ctx, ex.cfg.QueryTimeout)
+		if err != nil {
+			return sym.Unknown
+		}
+		ex.solver2 = s2
+	}
+	ex.solver2.Reset()
+	for _, t := range ex.pcTerms {
+		ex.solver2.Assert(t)
+	}
+	r, _ := ex.solver2.Check(q, nil)
+	ex.freshRetries++
+	return r
+}
+
+// dumpQuery writes path condition + query as a standalone SMT-LIB2 file (debugging).
+func (ex *Exec) dumpQuery(q *sym.Term, tag string) {
+	if !ex.cfg.Debug {
+		return
+	}
+	f, err := os.CreateTemp("/tmp", "symgo-"+tag+"-*.smt2")
+	if err != nil {
+		return
+	}
+	defer f.Close()
+	s2, err := sym.NewSolver(ex.cfg.Solver, ex.ctx, ex.cfg.QueryTimeout)
+	if err != nil {
+		return
+	}
+	defer s2.Close()
+	s2.Log = f
+	s2.TimeoutMs = 1000
+	for _, t := range ex.pcTerms {
+		s2.Assert(t)
+	}
+	s2.Check(q, nil)
+	fmt.Println("  dumped unknown query to", f.Name())
+}
+
 func (ex *Exec) assertPC(t *sym.Term) {
+	ex.pcTerms = append(ex.pcTerms, t)
 	ex.solver.Assert(t)
 	ex.learn(t, true)
 	if ex.model != nil {
@@ -450,6 +507,9 @@ func (ex *Exec) branch(cond *sym.Term, in ssa.Instruction, fr *frame) bool {
 		}
 		r, _ := ex.solver.Check(other, nil)
 		if r == sym.Unknown {
+			r = ex.checkFresh(other)
+		}
+		if r == sym.Unknown {
 			ex.inconclusive("solver unknown on branch feasibility: " + ex.solver.LastErr)
 		}
 		n := uint64(0)
@@ -485,6 +545,9 @@ func (ex *Exec) branch(cond *sym.Term, in ssa.Instruction, fr *frame) bool {
 		return false
 	}
 	r2, _ := ex.solver.Check(c.BNot(cond), nil)
+	if r2 == sym.Unknown {
+		r2 = ex.checkFresh(c.BNot(cond))
+	}
 	if r2 == sym.Unknown {
 		ex.inconclusive("solver unknown on branch feasibility: " + ex.solver.LastErr)
 	}
@@ -809,6 +872,7 @@ func (ex *Exec) resetPath() {
 	ex.assertsHit = map[string]int{}
 	ex.reached = map[string]int{}
 	ex.assumes = 0
+	ex.pcTerms = nil
 	ex.modelOnly = false
 	ex.model, ex.evalr = nil, nil
 	ex.known = map[int32]bool{}
